@@ -135,7 +135,7 @@ func (x *g) docSpec() *DocSpec {
 	d := &DocSpec{}
 	mapLists := []*schema{topLists[0], topLists[1], topLists[2]} // items, people, rows: lists of maps
 	for i, n := 0, x.intn(1, 5, "delems"); i < n; i++ {
-		switch k := x.intn(0, 13, "dkind"); { // tables: 5 of 14
+		switch k := x.uniform(16, "dkind"); { // 5 of 16 kinds are tables
 		case k < 4: // text with variables, possibly one placeholder split over two runs
 			v := x.docVar()
 			if x.chance(25, "splitvar") {
@@ -173,7 +173,7 @@ func (x *g) docSpec() *DocSpec {
 				DocElem{Runs: []DocRun{{T: "{{#each " + s.name + "}}"}}},
 				DocElem{Runs: []DocRun{x.fmtRun("{{" + s.fields[0] + "}}"), x.fmtRun(" (" + "{{" + s.fields[1] + "}})")}},
 				DocElem{Runs: []DocRun{{T: "{{/each}}"}}})
-		case k < 11: // table with a template row (and, often, tables nested in its cells)
+		case k < 12: // table with a template row (and, often, tables nested in its cells)
 			s := mapLists[x.intn(0, 2, "dlist")]
 			x.usedLists[s.name] = true
 			f := s.fields
@@ -201,9 +201,9 @@ func (x *g) docSpec() *DocSpec {
 				e.CellFmt = &cf
 			}
 			d.Elems = append(d.Elems, e)
-		case k < 12: // plain table with variables, tables nested in its cells (depth 1-2) with variables of their own
+		case k < 14: // plain table with variables, tables nested in its cells (depth 1-2) with variables of their own
 			e := DocElem{Table: [][]string{{x.litText(), "{{" + x.docVar() + "}}"}, {"{{" + x.docVar() + "}}" + x.litText(), ""}}}
-			for i, n := 0, x.intn(0, 2, "dnestn"); i < n; i++ {
+			for i, n := 0, []int{0, 1, 1, 1, 2}[x.uniform(5, "dnestn")]; i < n; i++ {
 				e.Nested = append(e.Nested, x.nestedVars(x.intn(0, 1, "dnr"), x.intn(0, 1, "dnc")))
 			}
 			if x.chance(30, "dcellfmt") {
@@ -211,7 +211,7 @@ func (x *g) docSpec() *DocSpec {
 				e.CellFmt = &cf
 			}
 			d.Elems = append(d.Elems, e)
-		case k < 13: // picture
+		case k < 15: // picture
 			im := x.pick(imageNames, "dimg")
 			x.usedImgs[im] = true
 			d.Elems = append(d.Elems, DocElem{Runs: []DocRun{{T: "{{#image " + im + "}}"}}})
@@ -535,6 +535,35 @@ func describe(res *kit.Result, c *Case, x *runner, ranConc bool) {
 	for k := range kinds {
 		res.Label("op:" + k)
 	}
+	docTable, docNested, docNested2, docNestedLoop := false, false, false, false
+	seeDoc := func(d *DocSpec) {
+		if d == nil {
+			return
+		}
+		for _, e := range d.Elems {
+			if e.Table != nil {
+				docTable = true
+			}
+			for _, n := range e.Nested {
+				docNested = true
+				if n.Inner != nil {
+					docNested2 = true
+				}
+				for _, row := range n.Table {
+					if strings.Contains(strings.Join(row, ""), "{{#each") {
+						docNestedLoop = true
+					}
+				}
+			}
+		}
+	}
+	for _, op := range c.Ops {
+		seeDoc(op.Doc)
+	}
+	lab(docTable, "doc:table-with-placeholders")
+	lab(docNested, "doc:nested-table")
+	lab(docNested2, "doc:nested-table-depth2")
+	lab(docNestedLoop, "doc:nested-loop-table")
 	lab(x.boundLoads > 0, "load:extends-bound")
 	lab(x.sawUnbound, "load:extends-absent-parent")
 	lab(x.sawDocExt, "load:extends-doc-template")
